@@ -425,6 +425,15 @@ def extract_numtypes():
     cpi = norm(block_after(chk, r"fn check_pat_int\([^)]*\) -> tast::Pat\s*\{", "check_pat_int"))
     if not cpi.startswith("let target_ty = integer_literal_target(ty).unwrap_or(tast::Ty::TInt32); let prim = self .parse_integer_literal_with_ty(diagnostics, value, &target_ty)"):
         raise Exception("check.rs: check_pat_int no longer parses the literal at the scrutinee's integer type")
+    # the model (Num.patUnsufAccept) relies on the constraint `validated type = scrutinee type` being pushed unconditionally
+    want_tail = (".unwrap_or_else(|| Prim::zero_for_int_ty(&target_ty)); self.push_constraint(Constraint::TypeEqual(target_ty.clone(), ty.clone())); "
+                 "tast::Pat::PPrim { value: prim, ty: ty.clone(), }")
+    if not cpi.endswith(want_tail):
+        raise Exception("check.rs: check_pat_int no longer pushes TypeEqual(target_ty, ty) unconditionally right after validating the literal "
+                        "(an unsuffixed pattern could then be validated at one type and rebuilt by tast_builder.rs at another)")
+    itt = norm(block_after(chk, r"fn integer_literal_target\(expected: &tast::Ty\) -> Option<tast::Ty>\s*\{", "integer_literal_target"))
+    if itt != "if is_integer_ty(expected) { Some(expected.clone()) } else { None }":
+        raise Exception("check.rs: integer_literal_target changed")
     cpt = norm(block_after(chk, r"fn check_pat_typed_int\([^)]*\) -> tast::Pat\s*\{", "check_pat_typed_int"))
     if not cpt.startswith("let prim = self .parse_integer_literal_with_ty(diagnostics, value, literal_ty)"):
         raise Exception("check.rs: check_pat_typed_int no longer parses the literal at the suffix type")
@@ -1251,6 +1260,10 @@ def gen_dispatch():
         (chk, "coerce: guards", 'let for_ty = expr.get_ty(); if !is_concrete_dyn_target(&for_ty) {'),
         (chk, "coerce: impl guard", 'if !has_visible_trait_impl(genv, &resolved_trait, &for_ty) { diagnostics.push(Diagnostic::new( Stage::Typer, Severity::Error, format!( "Type {:?} does not implement trait {}", for_ty, resolved_trait ), )); return expr; }'),
         (chk, "has_visible_trait_impl", 'let key = (trait_name.to_string(), for_ty.clone()); if genv.current().trait_env.trait_impls.contains_key(&key) { return true; } genv.deps .values() .any(|env| env.trait_env.trait_impls.contains_key(&key))'),
+        (chk, "UFCS on a trait object: dynamic path only for the named trait",
+         'if let tast::Ty::TDyn { trait_name: recv_trait, } = receiver_tast.get_ty() && recv_trait == type_ident.0 {'),
+        (comp, "calls compiled for effect emit a statement",
+         '| anf::CExpr::EToDyn { .. } | anf::CExpr::EProj { .. } => Vec::new(), anf::CExpr::ECall { .. } | anf::CExpr::EDynCall { .. } => { vec![goast::Stmt::Expr(compile_cexpr(goenv, expr))] }'),
         (nm, "parse_inherent_method_fn_name", 'let mut parts = name.split(\'#\'); if parts.next()? != "inherent" { return None; } let base = parts.next()?; let _ty = parts.next()?; let method = parts.next()?; if parts.next().is_some() { return None; } Some((base, method))'),
     ]
     for text, what, frag in want:
@@ -1539,7 +1552,53 @@ def arrayWildcardLen : Nat := {n}
 end Goml.Gen
 """)
 
+
+# ---------------------------------------------------------------- DCE (C02/C09): tables of go/dce.rs
+def dce_tables():
+    """value-only callee list of `keep_effect`, the root functions of `prune_dead_functions`, and
+    which expression forms `expr_has_side_effects` answers `true` for without looking inside"""
+    t = src("crates/compiler/src/go/dce.rs")
+    m = re.search(r"const VALUE_ONLY_CALLEES: \[&str; (\d+)\] = \[(.*?)\];", t, flags=re.S)
+    if not m:
+        raise Exception("dce.rs: VALUE_ONLY_CALLEES not found")
+    names = re.findall(r'"([^"]*)"', m.group(2))
+    if len(names) != int(m.group(1)) or not names:
+        raise Exception("dce.rs: VALUE_ONLY_CALLEES length mismatch")
+    r = re.search(r"for root in \[(.*?)\] \{", t)
+    if not r:
+        raise Exception("dce.rs: root list of prune_dead_functions not found")
+    roots = re.findall(r'"([^"]*)"', r.group(1))
+    body = block_after(t, r"fn expr_has_side_effects\(e: &ast::Expr\) -> bool", "expr_has_side_effects")
+    # arms of the form `ast::Expr::K { … } => true` / `ast::Expr::K { op: ast::GoXOp::O, .. } => true`
+    always = []
+    for am in re.finditer(r"ast::Expr::(\w+)\s*\{([^{}]*)\}\s*=>\s*true,", body):
+        kind, inner = am.group(1), am.group(2)
+        om = re.search(r"op:\s*ast::Go(?:Unary|Binary)Op::(\w+)", inner)
+        always.append(kind + ("." + om.group(1) if om else ""))
+    if "Call" not in always:
+        raise Exception("dce.rs: expr_has_side_effects no longer treats Call as an effect")
+    return names, roots, always
+
+def gen_dce_tables():
+    names, roots, always = dce_tables()
+    ls = lambda xs: "[" + ", ".join(lstr(x) for x in xs) + "]"
+    write_if_changed("DceTables.lean", f"""/- GENERATED by tools/extract.py (gen_dce_tables) from crates/compiler/src/go/dce.rs — do not edit; regenerated on every ./check run -/
+namespace Goml.Gen
+
+/-- `VALUE_ONLY_CALLEES`: callees whose call `keep_effect` keeps as `_ = e` -/
+def dceValueOnlyCallees : List String := {ls(names)}
+
+/-- roots of the reachability walk in `prune_dead_functions` -/
+def dceRoots : List String := {ls(roots)}
+
+/-- expression forms `expr_has_side_effects` answers `true` for outright (`Kind` or `Kind.Op`) -/
+def dceAlwaysEffects : List String := {ls(always)}
+
+end Goml.Gen
+""")
+
 EXTRACTORS += [c03_gen_ty_consts]
+EXTRACTORS += [gen_dce_tables]
 
 if __name__ == "__main__":
     main()
